@@ -350,6 +350,13 @@ def declared_gate(m, ff, appends, p):
         # a test that reads nothing but this parameter and constants (e.g. the message variant chosen by a helper's
         # constant argument) does not make the refusal depend on anything else
         return all(n.name == p for n in deep_walk(t) if isinstance(n, Param))
+    # a look-up that tests something computed from the name (cut, lower-cased, ..) instead of the name is no gate for the
+    # objects whose names it changes - in whichever type branch it sits
+    for ex in ff.raise_exits():
+        for c in facts_at(ex.state):
+            if c.op in ('notin', 'in') and mentions_param_attr(c.left, p, 'name') and mentions_self_attr(c.right, 'results') \
+                    and not pure_name(c.left):
+                return False
     for call, stmt, before in appends:
         if gate_with(before, declared, 'ValueError'):
             continue
